@@ -7,7 +7,7 @@ import ast, glob, os, re, sys
 HERE = os.path.dirname(os.path.dirname(os.path.abspath(__file__)))
 logdir = sys.argv[1] if len(sys.argv) > 1 else "/tmp"
 seeded, benign = {}, {}
-for lp in sorted(glob.glob(os.path.join(logdir, "recheck_*.log"))) + sorted(glob.glob(os.path.join(logdir, "recheck8_*.log"))) + sorted(glob.glob(os.path.join(logdir, "recheck9_*.log"))) + sorted(glob.glob(os.path.join(logdir, "recheck91_*.log"))):
+for lp in sorted(glob.glob(os.path.join(logdir, "recheck_*.log"))) + sorted(glob.glob(os.path.join(logdir, "recheck8_*.log"))) + sorted(glob.glob(os.path.join(logdir, "recheck9_*.log"))) + sorted(glob.glob(os.path.join(logdir, "recheck91_*.log"))) + sorted(glob.glob(os.path.join(logdir, "recheck92_*.log"))):
     cur = None
     for line in open(lp):
         line = line.rstrip("\n")
